@@ -868,3 +868,55 @@ def bigmesh_pair(rng):
     if rng.random() < 0.5:
         return s2, s1, dict(meta, kinds=[k2, "mesh"])
     return s1, s2, meta
+
+
+# ----------------------------------------------------------------------------- statement coverage of the implementation
+COV_FILES = ("gjk/_gjk_jolt.py", "gjk/_gjk_libccd.py", "gjk/_gjk_original.py", "gjk/_gjk_nesterov_accelerated.py",
+             "gjk/_gjk_nesterov_accelerated_primitives.py", "mpr.py", "epa.py")
+
+
+def _executable_lines(path):
+    """line numbers of the statements inside function bodies (docstrings and def lines excluded)"""
+    import ast
+    tree = ast.parse(open(path).read())
+    lines = set()
+    for fn in ast.walk(tree):
+        if isinstance(fn, (ast.FunctionDef,)):
+            body = fn.body
+            if body and isinstance(body[0], ast.Expr) and isinstance(getattr(body[0], "value", None), ast.Constant) \
+                    and isinstance(body[0].value.value, str):
+                body = body[1:]
+            for st in body:
+                for node in ast.walk(st):
+                    if isinstance(node, ast.stmt) and not isinstance(node, (ast.FunctionDef, ast.ClassDef)):
+                        lines.add(node.lineno)
+    return lines
+
+
+def statement_coverage(pid, cases, n=64, workers=8):
+    """Run `n` of the cases with NUMBA_DISABLE_JIT=1 under sys.settrace (harness/impl/narrowbcov.py) and report the
+    statement coverage of /repo's narrow-phase modules reached by the generators."""
+    from . import common as cm
+    step = max(1, len(cases) // n)
+    sel = [dict(c1=c["c1"], c2=c["c2"], ops=c["ops"]) for c in cases[::step] if "scene" not in c][:n]
+    if not sel:
+        return {}
+    workers = min(workers, len(sel))
+    res = cm.run_impl_parallel(pid, "narrowbcov", [dict(cases=sel[i::workers]) for i in range(workers)], timeout=1500,
+                               jit=False, tag="cov")
+    hits = {}
+    calls = 0
+    for r in res:
+        if r["status"] != "ok":
+            continue
+        calls += r["result"]["calls"]
+        for k, v in r["result"]["hits"].items():
+            hits.setdefault(k, set()).update(v)
+    out = dict(calls=calls, cases=len(sel))
+    for f in COV_FILES:
+        ex = _executable_lines(cm.REPO / "distance3d" / f)
+        got = hits.get(f, set()) & ex
+        missed = sorted(ex - got)
+        out[f] = dict(statements=len(ex), executed=len(got), percent=round(100.0 * len(got) / max(1, len(ex)), 1),
+                      never_executed_lines=missed[:40])
+    return out
